@@ -172,6 +172,22 @@ class Lengths:
                 raise Unknown("encode call on unknown type: %s" % nm)
             if last in ("as_bytes", "as_str", "as_slice", "to_vec", "to_owned", "clone", "into", "from", "into_bytes", "as_ref", "deref", "to_string", "into_vec", "into_boxed_slice", "as_os_str", "into_string"):
                 return self.value_forms(e[3][0], env)
+            if last in ("flat_map", "chain") and "iter" in nm.lower():
+                return self.iter_forms(e, env)
+            if last == "index" and len(e[3]) == 2:
+                # `bytes[bytes.len() - k..]`: the last k octets of a value whose length is known
+                rng = simp(e[3][1])
+                whole = self.value_forms(simp(e[3][0]), env)
+                if rng[0] == "agg" and rng[1] == "adt" and (rng[3] or rng[2]).split("::")[-1] == "RangeFrom" and len(rng[5]) == 1 and len(whole) == 1 and set(whole[0].t) <= {"1"}:
+                    n_ = whole[0].t.get("1", 0)
+                    st_ = simp(rng[5][0])
+                    if st_[0] == "proj" and st_[1][0] == "binop" and st_[2] == ".0":
+                        st_ = ("binop", st_[1][1].replace("WithOverflow", ""), st_[1][2], st_[1][3])
+                    if st_[0] == "binop" and st_[1] == "Sub":
+                        lhs = self.lin(simp(st_[2]), self.cur_fn) if simp(st_[2])[0] != "call" or (callee_name(simp(st_[2])) or "").split("::")[-1] != "len" else [Form.const(n_)]
+                        if len(lhs) == 1 and lhs[0].key() == str(n_):
+                            return self.lin(simp(st_[3]), self.cur_fn)
+                raise Unknown("slice of a byte value: %s" % expr_str(e)[:80])
             if last in ("new", "with_capacity") and "Vec" in nm:
                 return [Form()]
             if last == "collect" and e[3]:
@@ -225,6 +241,25 @@ class Lengths:
                 return [a.add(b) for a in self.iter_forms(simp(it[3][0]), env) for b in self.iter_forms(simp(it[3][1]), env)]
             if last in ("into_iter", "iter", "copied", "cloned", "by_ref") and it[3]:
                 return self.iter_forms(simp(it[3][0]), env)
+            if last == "flat_map" and len(it[3]) == 2:
+                # every item of the list contributes the bytes its closure yields
+                clo = it[3][1]
+                while clo[0] == "ref":
+                    clo = clo[2]
+                cl = self.prog.by_norm.get(clo[2]) if clo[0] == "agg" and clo[1] == "closure" else None
+                if cl is not None and cl.arg_count >= 2:
+                    saved = self.cur_fn
+                    try:
+                        inner = Lengths(self.prog).emit(cl)
+                    finally:
+                        self.cur_fn = saved
+                    params = [vn for vn, l, pj in cl.var_places if not pj and 2 <= l <= cl.arg_count]
+                    list_name = self._list_name(simp(it[3][0]))
+                    out = []
+                    for k in inner:
+                        item = re.sub(r"\b(%s)\b" % "|".join(re.escape(p_) for p_ in params), "item", k) if params else k
+                        out.append(Form.atom("S(%s){%s}" % (list_name, item)))
+                    return out
             if last in ("map", "filter", "flat_map", "flatten", "take", "skip", "rev", "step_by", "zip", "scan"):
                 raise Unknown("iterator adaptor %s in an encoder" % last)
         return self.value_forms(it, env)
@@ -245,7 +280,15 @@ class Lengths:
             if key not in env:
                 raise Unknown("returned value of %s is not a tracked byte vector" % short(fn.norm))
             for f_ in env[key]:
-                out[f_.key()] = f_
+                if "fss" in f_.t:
+                    # k octets per file-size-sensitive field: 4 or 8 (as announced() expands them)
+                    k_ = f_.t["fss"]
+                    rest = Form({a: c for a, c in f_.t.items() if a != "fss"})
+                    for v_ in (4, 8):
+                        g_ = rest.add(Form.const(k_ * v_))
+                        out[g_.key()] = g_
+                else:
+                    out[f_.key()] = f_
         return list(out.values())
 
     def _interp(self, fn, start, init, region, loops, stop):
